@@ -194,8 +194,14 @@ pub fn bfs(sc: &Scenario, oracles: &[&dyn Oracle], lim: &Limits) -> (Stats, Vec<
     let t_start = Instant::now();
     let mut viols: Vec<Violation> = Vec::new();
     let mut seen: HashSet<Fp> = HashSet::new();
+    if let Some((sig, detail)) = prelude_failure(sc) {
+        // the fixed opening moves of the scenario (mount, open the directories) do not do on this tree what the
+        // reference model says: that is a verdict about the code, not a failure of the machinery
+        stats.capped = Some("the scenario's prelude fails on this tree; nothing explored".into());
+        viols.push(viol("?", sig, detail, sc, &[]));
+        return (stats, viols);
+    }
     let w0 = sc.replay(&[]);
-    assert!(!w0.dead && !w0.m.diverged, "scenario {} prelude fails: model diverged or panic", sc.name);
     seen.insert(w0.fingerprint());
     stats.states = 1;
     let mut frontier: Vec<Vec<Op>> = vec![vec![]];
@@ -513,6 +519,22 @@ impl Report {
 pub fn machinery_fail(msg: &str) -> ! {
     eprintln!("MACHINERY FAILURE (not a verdict): {}", msg);
     std::process::exit(2)
+}
+
+/// Does the scenario's prelude run as the model expects? If not: (signature, detail) of the first step that does not.
+pub fn prelude_failure(sc: &Scenario) -> Option<(String, String)> {
+    let mut w = World::new(sc.cfg.clone());
+    for op in &sc.prelude {
+        if !w.enabled(op) {
+            return Some((format!("prelude/{}/not-possible", op.kind()), format!("prelude step {} cannot be issued", op.show())));
+        }
+        let st = w.apply(*op, false);
+        if w.dead || w.m.diverged {
+            let why = st.findings.first().map(|f| f.detail.clone()).unwrap_or_else(|| "the result differs from the reference model".into());
+            return Some((format!("prelude/{}/{}", op.kind(), if matches!(st.res, crate::world::Res::Panic(_)) { "panic" } else if st.res.is_ok() { "wrong-result" } else { "error" }), format!("prelude step {} -> {}: {}", op.show(), st.res.class(), why)));
+        }
+    }
+    None
 }
 
 pub fn viol(prop: &str, sig: String, detail: String, sc: &Scenario, hist: &[Op]) -> Violation {
